@@ -50,7 +50,7 @@ ASSUMPTIONS = [
     'cache._cache is the set of entries the cache holds (read-only use)',
 ]
 SHARDS = {'quick': 1, 'thorough': 16}
-TIMEOUT = {'quick': 300, 'thorough': 900}
+TIMEOUT = {'quick': 900, 'thorough': 900}
 
 
 def FLOORS(tier):
